@@ -68,7 +68,10 @@ func (m *Machine) callMethod(recv iface, name string, args ...value) value {
 	panic(fmt.Sprintf("no method %s on %v", name, recv.t))
 }
 
-type poolState struct{ free []value }
+type poolState struct {
+	private value
+	free    []value
+}
 
 type s2Writer struct {
 	dst iface
@@ -112,7 +115,15 @@ func (m *Machine) envIntrinsics() {
 		"(*sync.Pool).Get": func(m *Machine, fr *frame, a []value) value {
 			p := a[0].(*value)
 			ps := pools()[p]
-			if ps != nil && len(ps.free) > 0 { // maximal reuse: most recently Put first
+			// single-P order of the real sync.Pool: the private slot first, then the shared
+			// list (LIFO); a fresh object only when both are empty
+			if ps != nil && ps.private != nil {
+				v := ps.private
+				ps.private = nil
+				m.acquire(v.(iface).v)
+				return v
+			}
+			if ps != nil && len(ps.free) > 0 {
 				v := ps.free[len(ps.free)-1]
 				ps.free = ps.free[:len(ps.free)-1]
 				m.acquire(v.(iface).v)
@@ -129,8 +140,12 @@ func (m *Machine) envIntrinsics() {
 				ps = &poolState{}
 				pools()[p] = ps
 			}
-			ps.free = append(ps.free, a[1])
 			m.release(a[1].(iface).v)
+			if ps.private == nil {
+				ps.private = a[1]
+			} else {
+				ps.free = append(ps.free, a[1])
+			}
 			return nil
 		},
 		"encoding/binary.Write": func(m *Machine, fr *frame, a []value) value {
